@@ -156,6 +156,17 @@ def check_bids(case):
             expect_attrs(g, e2, name)
         # the base object is untouched by the look-ups
         expect_attrs(f, e, 'parse after look-ups')
+        # a second file with identical file-name entities in another derivative pipeline, served
+        # by the same layout object: its look-ups must change only what they are asked to change
+        e_b = dict(e, derivative='pipeB' if e.get('derivative') != 'pipeB' else 'pipeC')
+        f_b = lib(B.BidsMriFile, fmt_path(e_b), layout, object(), on_error='violation',
+                  sig='bids:parse:raises')
+        for who, fo, eo in (('other pipeline', f_b, e_b), ('first file again', f, e)):
+            g = lib(layout.find_meta_for, fo, on_error='violation', sig='bids:meta:raises')
+            e2 = dict(eo, ext='json')
+            require(g.relpath == fmt_path(e2), 'meta look-up (%s) for %r: %r, expected %r' % (
+                who, fo.relpath, g.relpath, fmt_path(e2)), 'bids:meta:path')
+            expect_attrs(g, e2, 'meta')
 
         # the same through the file objects, with real files at the BIDS locations
         def put(ent, text):
